@@ -4,8 +4,9 @@
    groupings, repetitions), creation of new parents and add() attempts over ANY design DAG.  The theorems hold for EVERY
    pass body `body k m views c` that reads from the children of m only their views (read discipline) and obeys the two
    frame conditions (bundle-level io unchanged before the flattening entry, flattened io unchanged after it), for every
-   pass list whose entries have distinct class-level caches (the repaired default list; checked per run on the
-   regenerated table by `table_distinct`).  `reachable d st`: st is the state after some history from the fresh state
+   pass list — also one that names a class twice, whose repeated entries share the class-level cache of the first and
+   never run a body (`eff caches k`: entry k is not such a repeat) — in which the flattening and the marking entry are
+   not repeats.  `reachable d st`: st is the state after some history from the fresh state
    of design d in which no add() was accepted (an accepted add() edits the design itself). *)
 Require Import Hdl21.Base.PyInt Hdl21.Model.C07PassMgr Hdl21.Proofs.C07Proofs.
 Require Import Hdl21Gen.DefaultPasses.
@@ -21,7 +22,8 @@ Section C07.
   Variable addc : C -> C.
   Variable caches : list nat.
   Variables bf mk : nat.
-  Hypothesis caches_distinct_ok : caches_distinct caches = true.
+  Hypothesis bf_eff : eff caches bf = true.
+  Hypothesis mk_eff : eff caches mk = true.
   Hypothesis frame_bundle : forall k m vs c, k < bf -> bio (body k m vs c) = bio c.
   Hypothesis frame_flat : forall k m vs c, bf < k -> fio (body k m vs c) = fio c.
 
@@ -32,19 +34,21 @@ Section C07.
   Notation fresh := (init_state C IO FIO init).
   Notation reachable := (reachable C IO FIO init bio fio body addc caches bf mk).
   Notation no_edits := (no_edits C).
-  Notation canon := (canon C IO FIO init bio fio body bf).
-  Notation cview := (cview C IO FIO init bio fio body bf).
+  Notation canon := (canon C IO FIO init bio fio body caches bf).
+  Notation cview := (cview C IO FIO init bio fio body caches bf).
   Notation view_of := (view_of C IO FIO bio fio bf).
-  Notation LogOK := (LogOK IO FIO).
+  Notation LogOK := (LogOK IO FIO caches).
   Notation log_keys := (log_keys IO FIO).
   Notation Inv := (Inv C IO FIO init bio fio body caches bf mk).
 
-  Let ND : NoDup caches := caches_distinct_NoDup caches caches_distinct_ok.
-  Ltac solve_hyps := first [exact ND | exact frame_bundle | exact frame_flat | eassumption | exact addc].
+  Ltac solve_hyps1 :=
+    first [exact frame_bundle | exact frame_flat
+          | lazymatch goal with |- eff _ _ = true => fail | |- _ => eassumption end | exact addc].
+  Ltac solve_eff := first [exact bf_eff | exact mk_eff].
 
   Lemma r_inv d st : wf_design d = true -> reachable d st -> Inv st.
   Proof.
-    intros W R. eapply reachable_inv; try solve_hyps. apply wf_design_WF; exact W.
+    intros W R. eapply reachable_inv; try solve_hyps1; try solve_eff. apply wf_design_WF; exact W.
   Qed.
 
   (* 0. the quantifier: every history from the fresh state in which no add() is accepted ends in a reachable state *)
@@ -56,13 +60,13 @@ Section C07.
         and after every earlier entry's body on the module itself; recursion fuel is never exhausted *)
   Theorem C07_visit_once d st : wf_design d = true -> reachable d st ->
     LogOK (s_design st) (s_log st) /\ NoDup (log_keys (s_log st)) /\ s_err st = false /\
-    (forall k m, In (k, m) (log_keys (s_log st)) -> k < P /\ m < length (s_design st)).
+    (forall k m, In (k, m) (log_keys (s_log st)) -> k < P /\ eff caches k = true /\ m < length (s_design st)).
   Proof.
     intros W R. pose proof (r_inv d st W R) as I. split; [apply (i_log _ _ _ _ _ _ _ _ _ _ st I)|].
     split; [eapply LogOK_nodup; apply (i_log _ _ _ _ _ _ _ _ _ _ st I)|].
     split; [apply (i_err _ _ _ _ _ _ _ _ _ _ st I)|].
-    intros k m Hin. apply (i_login _ _ _ _ _ _ _ _ _ _ st I) in Hin.
-    pose proof (i_le _ _ _ _ _ _ _ _ _ _ st I m). split; [lia|].
+    intros k m Hin. apply (i_login _ _ _ _ _ _ _ _ _ _ st I) in Hin. destruct Hin as [Ek Hin].
+    pose proof (i_le _ _ _ _ _ _ _ _ _ _ st I m). split; [lia|]. split; [exact Ek|].
     destruct (Nat.lt_ge_cases m (length (s_design st))) as [L|G]; [exact L|].
     rewrite (i_new _ _ _ _ _ _ _ _ _ _ st I m G) in Hin. lia.
   Qed.
@@ -75,8 +79,8 @@ Section C07.
   Proof.
     intros W R Hin. pose proof (r_inv d st W R) as I.
     pose proof (i_reads _ _ _ _ _ _ _ _ _ _ st I k m vs Hin) as E. split; [exact E|]. rewrite E. symmetry.
-    eapply views_canonical; try solve_hyps.
-    intros c Hc. apply in_log_keys in Hin. apply (i_login _ _ _ _ _ _ _ _ _ _ st I) in Hin.
+    eapply views_canonical; try solve_hyps1; try solve_eff.
+    intros c Hc. apply in_log_keys in Hin. apply (i_login _ _ _ _ _ _ _ _ _ _ st I) in Hin. destruct Hin as [_ Hin].
     pose proof (i_kids _ _ _ _ _ _ _ _ _ _ st I m c Hc). lia.
   Qed.
 
@@ -92,14 +96,14 @@ Section C07.
   Proof.
     intros W R A. pose proof (r_inv d st W R) as I.
     assert (WF' : WF (s_design st)) by apply (i_wf _ _ _ _ _ _ _ _ _ _ st I).
-    assert (I0 : Inv (fresh (s_design st))) by (eapply inv_init; try solve_hyps).
+    assert (I0 : Inv (fresh (s_design st))) by (eapply inv_init; try solve_hyps1; try solve_eff).
     assert (G : forall s, Inv s -> s_design s = s_design st ->
               package C IO FIO (elab_call C IO FIO bio fio body caches bf mk tops s) tops =
               map (fun m => (m, canon (s_design st) P m)) (export_order (s_design st) tops)).
     { intros s Is Ds.
-      edestruct elab_call_ok with (tops := tops) (st := s) as (I1 & D1 & S1 & _); try solve_hyps.
+      edestruct elab_call_ok with (tops := tops) (st := s) as (I1 & D1 & S1 & _); try solve_hyps1; try solve_eff.
       { rewrite Ds. apply all_below_spec. exact A. }
-      erewrite package_canonical; try solve_hyps.
+      erewrite package_canonical; try solve_hyps1; try solve_eff.
       - rewrite D1, Ds. reflexivity.
       - intros t Ht. pose proof (S1 t Ht). pose proof (i_le _ _ _ _ _ _ _ _ _ _ _ I1 t). lia. }
     cbn [C07PassMgr.step]. cbn [s_design C07PassMgr.init_state]. rewrite A. cbn [snd].
@@ -122,7 +126,7 @@ Section C07.
     intros W R1 Ho A Ht D R3 Mono K Len. pose proof (r_inv d st1 W R1) as I1. pose proof (r_inv d st3 W R3) as I3.
     assert (WF1 : WF (s_design st1)) by apply (i_wf _ _ _ _ _ _ _ _ _ _ st1 I1).
     assert (WF3 : WF (s_design st3)) by apply (i_wf _ _ _ _ _ _ _ _ _ _ st3 I3).
-    edestruct call_completes with (st := st1) (tops := tops) (t := t) (x := m) as (_ & _ & S2); try solve_hyps.
+    edestruct call_completes with (st := st1) (tops := tops) (t := t) (x := m) as (_ & _ & S2); try solve_hyps1; try solve_eff.
     assert (E2 : s_stage (fst (step st1 o)) m = P).
     { destruct Ho as [->|[->| ->]]; cbn [C07PassMgr.step]; rewrite A; exact S2. }
     assert (E3 : s_stage st3 m = P).
@@ -135,9 +139,9 @@ Section C07.
     { pose proof (desc_below (s_design st1) t m WF1 D). pose proof (all_below_spec _ _ A t Ht). lia. }
     assert (A' : all_below (length (s_design st3)) [m] = true).
     { unfold all_below. simpl. rewrite andb_true_r. apply Nat.ltb_lt. exact Hm. }
-    assert (I0 : Inv (fresh (s_design st3))) by (eapply inv_init; try solve_hyps).
+    assert (I0 : Inv (fresh (s_design st3))) by (eapply inv_init; try solve_hyps1; try solve_eff).
     edestruct call_completes with (st := fresh (s_design st3)) (tops := [m]) (t := m) (x := m) as (I4 & D4 & S4);
-      try solve_hyps; try (left; reflexivity); try apply desc_refl.
+      try solve_hyps1; try solve_eff; try (left; reflexivity); try apply desc_refl.
     cbn [C07PassMgr.step]. cbn [s_design C07PassMgr.init_state] in *. rewrite A'. cbn [fst].
     rewrite (i_content _ _ _ _ _ _ _ _ _ _ _ I4 m), S4, D4. reflexivity.
   Qed.
@@ -149,7 +153,7 @@ Section C07.
     length (s_design st) <= length (s_design (fst (run st h))).
   Proof.
     intros W R NE. pose proof (r_inv d st W R) as I. split; [apply run_reachable; assumption|].
-    edestruct run_ok with (h := h) (st := st) as (_ & M & K & L); try solve_hyps.
+    edestruct run_ok with (h := h) (st := st) as (_ & M & K & L); try solve_hyps1; try solve_eff.
     split; [assumption|]. split; assumption.
   Qed.
 
@@ -165,16 +169,16 @@ Section C07.
     assert (WF' : WF (s_design st)) by apply (i_wf _ _ _ _ _ _ _ _ _ _ st I).
     assert (E1 : st1 = elab_call C IO FIO bio fio body caches bf mk tops st).
     { unfold st1. cbn [C07PassMgr.step]. rewrite A. reflexivity. }
-    edestruct elab_call_ok with (tops := tops) (st := st) as (I1 & D1 & _ & _); try solve_hyps; [apply all_below_spec; exact A|].
+    edestruct elab_call_ok with (tops := tops) (st := st) as (I1 & D1 & _ & _); try solve_hyps1; try solve_eff; [apply all_below_spec; exact A|].
     rewrite <- E1 in I1, D1.
     assert (S : forall t', In t' tops' -> s_stage st1 t' = P).
     { intros t' Ht'. destruct (H t' Ht') as [t [Ht D]]. rewrite E1.
-      eapply call_completes with (t := t); try solve_hyps. }
+      eapply call_completes with (t := t); try solve_hyps1; try solve_eff. }
     assert (A' : all_below (length (s_design st1)) tops' = true).
     { rewrite D1. unfold all_below. apply forallb_forall. intros t' Ht'. apply Nat.ltb_lt.
       destruct (H t' Ht') as [t [Ht D]]. pose proof (desc_below (s_design st) t t' WF' D).
       pose proof (all_below_spec _ _ A t Ht). lia. }
-    assert (N : elab_call C IO FIO bio fio body caches bf mk tops' st1 = st1) by (eapply elab_call_noop; try solve_hyps).
+    assert (N : elab_call C IO FIO bio fio body caches bf mk tops' st1 = st1) by (eapply elab_call_noop; try solve_hyps1; try solve_eff).
     cbn [C07PassMgr.step]. rewrite A'. cbn [fst]. rewrite N. auto.
   Qed.
 
@@ -187,7 +191,7 @@ Section C07.
     step st3 (Add m) = (st3, RRefused C).
   Proof.
     intros W Hmk R1 Ho A Ht D R3 Mono. pose proof (r_inv d st1 W R1) as I1. pose proof (r_inv d st3 W R3) as I3.
-    edestruct call_completes with (st := st1) (tops := tops) (t := t) (x := m) as (_ & _ & S2); try solve_hyps.
+    edestruct call_completes with (st := st1) (tops := tops) (t := t) (x := m) as (_ & _ & S2); try solve_hyps1; try solve_eff.
     assert (E2 : s_stage (fst (step st1 o)) m = P).
     { destruct Ho as [->|[->| ->]]; cbn [C07PassMgr.step]; rewrite A; exact S2. }
     cbn [C07PassMgr.step]. rewrite (i_marked _ _ _ _ _ _ _ _ _ _ st3 I3 m).
@@ -214,7 +218,7 @@ Section C07.
     let st2 := fst (step st1 (Export [n])) in
     snd (step st (NewParent ks)) = RNew C n /\
     snd (step st1 (Export [n])) = snd (step (fresh (s_design st1)) (Export [n])) /\
-    forall k, k < P ->
+    forall k, k < P -> eff caches k = true ->
       exists vs, In (k, n, vs) (s_log st2) /\ map (@v_mid IO FIO) vs = ks /\
                  forall v, In v vs -> v_bundle v = bio (init (v_mid v)) /\
                                      (v_flat v = None <-> k < bf).
@@ -229,17 +233,17 @@ Section C07.
     assert (A1 : all_below (length (s_design st1)) [n] = true).
     { rewrite D1, app_length. unfold all_below. simpl. rewrite andb_true_r. apply Nat.ltb_lt. unfold n. lia. }
     split; [apply (C07_history_independent d st1 [n] W R1 A1)|].
-    intros k Hk.
+    intros k Hk Ek.
     assert (R2 : reachable d st2).
     { unfold st2. constructor; [exact R1|]. cbn [C07PassMgr.step]. rewrite A1. discriminate. }
     pose proof (r_inv d st1 W R1) as I1. pose proof (r_inv d st2 W R2) as I2.
     edestruct call_completes with (st := st1) (tops := [n]) (t := n) (x := n) as (_ & D2 & S2);
-      try solve_hyps; try (left; reflexivity); try apply desc_refl.
+      try solve_hyps1; try solve_eff; try (left; reflexivity); try apply desc_refl.
     assert (E2 : st2 = elab_call C IO FIO bio fio body caches bf mk [n] st1).
     { unfold st2. cbn [C07PassMgr.step]. rewrite A1. reflexivity. }
     rewrite <- E2 in D2, S2.
     assert (Hin : In (k, n) (log_keys (s_log st2))).
-    { apply (i_login _ _ _ _ _ _ _ _ _ _ st2 I2). rewrite S2. exact Hk. }
+    { apply (i_login _ _ _ _ _ _ _ _ _ _ st2 I2). rewrite S2. split; [exact Ek|exact Hk]. }
     apply in_log_exists in Hin. destruct Hin as [vs Hvs]. exists vs. split; [exact Hvs|].
     pose proof (i_reads _ _ _ _ _ _ _ _ _ _ st2 I2 k n vs Hvs) as E.
     assert (Kn : kids (s_design st2) n = ks).
@@ -265,7 +269,8 @@ Print Assumptions C07_unelaborated_accepts_add.
 Print Assumptions C07_new_parent_sees_bundle_io.
 
 (* 7. the regenerated pass table has a flattening entry and, after it, a marking entry *)
-Theorem C07_default_table : exists b m, default_bf = Some b /\ default_mk = Some m /\ b < m /\ m < length default_caches.
+Theorem C07_default_table : exists b m, default_bf = Some b /\ default_mk = Some m /\ b < m /\ m < length default_caches /\
+  eff default_caches b = true /\ eff default_caches m = true.
 Proof. vm_compute. do 2 eexists. repeat split; repeat constructor. Qed.
 Print Assumptions C07_default_table.
 
@@ -295,10 +300,10 @@ Definition xd : design := [[]; [0; 0]; [0; 1]; [2; 1]].
 
 (* the hypotheses of every theorem above are satisfied by this instance *)
 Example C07_ex_hypotheses :
-  wf_design xd = true /\ caches_distinct (seq 0 10) = true /\
+  wf_design xd = true /\ eff (seq 0 10) 4 = true /\ eff (seq 0 10) 9 = true /\
   (forall k m vs c, k < 4 -> xbio (xbody k m vs c) = xbio c) /\
   (forall k m vs c, 4 < k -> xfio 4 (xbody k m vs c) = xfio 4 c).
-Proof. split; [reflexivity|]. split; [reflexivity|]. split; [exact (xframe_bundle 4)|exact (xframe_flat 4)]. Qed.
+Proof. split; [reflexivity|]. split; [reflexivity|]. split; [reflexivity|]. split; [exact (xframe_bundle 4)|exact (xframe_flat 4)]. Qed.
 
 (* three very different histories end with the same package for module 3, the one of the fresh state; the contents
    differ from module to module and from entry to entry (the body is not constant) *)
@@ -326,4 +331,17 @@ Example C07_ex_new_parent_and_add :
   last (snd (xrun (xfresh xd) h)) (RBad xC) = last (snd (xrun (xfresh xd) h')) (RBad xC) /\
   snd (xstep (fst (xrun (xfresh xd) h)) (Add 4)) = RRefused xC /\
   snd (xstep (fst (xrun (xfresh xd) [NewParent [3; 0]])) (Add 4)) = RAccepted xC.
+Proof. vm_compute. repeat split. Qed.
+
+(* a pass list that names two classes twice (the pinned default list: entries 7 and 8 repeat the classes of entries 3
+   and 0): the theorems apply as they are; the repeated entries never log a visit *)
+Definition ycaches : list nat := [0; 1; 2; 3; 4; 5; 6; 3; 0; 7].
+Definition yrun := run xC nat (list xentry) xbio (xfio 4) xbody xadd ycaches 4 9.
+Example C07_ex_repeated_classes :
+  eff ycaches 4 = true /\ eff ycaches 9 = true /\ eff ycaches 7 = false /\ eff ycaches 8 = false /\
+  let h1 := [Export [0]; Netlist [1]; Elaborate [2; 0]; Export [3]] in
+  let h3 := [Export [3]] in
+  last (snd (yrun (xfresh xd) h1)) (RBad xC) = last (snd (yrun (xfresh xd) h3)) (RBad xC) /\
+  length (s_log (fst (yrun (xfresh xd) h1))) = 32 /\
+  forallb (fun e => negb ((fst (fst e) =? 7) || (fst (fst e) =? 8))) (s_log (fst (yrun (xfresh xd) h1))) = true.
 Proof. vm_compute. repeat split. Qed.
